@@ -200,6 +200,8 @@ def cell_key(cell):
 
 
 def case_key(desc):
+    if desc.get("name"):
+        return desc["name"]
     if desc.get("g") == "cell":
         return "cell: " + cell_key(desc["cell"])
     if desc.get("g") == "toks":
@@ -492,6 +494,31 @@ def run(rep, tier, seed, selftest):
             selftest_cases["cell"] = (c, o)
     log("[cells] %d boundary cells emitted by TLC (%.1fs) and run on the real front end: %s; token-buffer model agreement %d" %
         (len(cells), rc.wall, json.dumps(cell_stats), cell_agree))
+    # ---- 3b'. integer literals at the 128-bit boundary in every spelling (MC_LexNumbers.tla; the reference automaton of
+    # PenneLex.tla decides which are valid lexemes), each inside a well-formed module `const X: u128 = <literal>;`
+    rn = common.tlc("MC_LexNumbers", "MC_LexNumbers.cfg", workers=4, timeout=900, heap="4g", tag="C15-numbers", keep_output=False)
+    if not rn.ok or len(rn.cases) < 300:
+        raise common.ToolError("MC_LexNumbers: %s" % (rn.violated or "%d literals emitted (vacuous)" % len(rn.cases)))
+    tlc_states += rn.distinct
+    ndesc = []
+    for c in rn.cases:
+        kinds = [it[0] for it in c["d"] if it[0] != "EndOfSource"]
+        bad = "Error" in kinds
+        lit = bytes(c["s"]).decode("ascii")
+        ndesc.append({"g": "src", "name": "numlit: %s" % lit, "src": "const X: u128 = %s;\n" % lit,
+                      "wf": (not bad) and len(kinds) == 1, "badlex": bad})
+    nobs = delta_util.run_cases("C15", "numbers", ndesc, events=True, timeout_s=60)
+    num_stats = {}
+    for desc, o in zip(ndesc, nobs):
+        classify(desc, o)
+        sig = signature(o)
+        if sig:
+            failure_counts[sig] = failure_counts.get(sig, 0) + 1
+        k = "%s->%s" % ("valid" if desc["wf"] else "invalid" if desc["badlex"] else "open", o.get("o"))
+        num_stats[k] = num_stats.get(k, 0) + 1
+    if not any(d["wf"] for d in ndesc) or not any(d["badlex"] for d in ndesc):
+        raise common.ToolError("MC_LexNumbers: the family has no valid or no invalid literal (vacuous)")
+    log("[numbers] %d boundary literals emitted by TLC (%.1fs) inside a constant declaration: %s" % (len(ndesc), rn.wall, json.dumps(num_stats)))
     # ---- 3c. the same inputs once more, in another order, in the same worker processes -----------------------
     pool = [(d, o) for d, o in zip(rdesc, obs_r) if 0 <= (o.get("len") or 0) < 20000 and o.get("o") in ("accepted", "rejected")]
     pool += [(d, o) for d, o in zip(cdesc, cobs) if 0 <= (o.get("len") or 0) < 300000 and o.get("o") in ("accepted", "rejected")]
@@ -688,6 +715,7 @@ def run(rep, tier, seed, selftest):
         "emitted_sequences_x_contexts": n_seq,
         "model_agreement_on_derivations": "%d/%d" % (agree, len(derivs)),
         "random_inputs": counts,
+        "boundary_literals": {"emitted": len(ndesc), "by_rule_verdict_and_outcome": num_stats},
         "boundary_cells": {"emitted": len(cells), "by_family_expectation_outcome": cell_stats,
                            "token_buffer_model_agreement": cell_agree},
         "second_pass_in_another_order": {"inputs": len(adesc) + len(first_digest), "observations_that_differ": history_dependent},
